@@ -91,6 +91,8 @@ fn check_rejected(ctx: &mut Ctx, dbs: &mut Dbs, name: &str, src: &str, legal: bo
 
 const OWN_PRELUDE: &str = "#[derive(Drop)]\nstruct N { v: Array<u8>, k: u8 }\nstruct ND { d: Felt252Dict<u8>, k: u8 }\nstruct P { x: u8 }\n#[derive(Destruct)]\nstruct DD { d: Felt252Dict<u8> }\nfn eat_arr(x: Array<u8>) -> u32 { x.len() }\nfn eat_n(x: N) -> u8 { x.k }\nfn eat_dd(x: DD) -> u8 { 1 }\nfn eat_p(x: P) -> u8 { let P { x: y } = x; y }\nfn eat_nd(x: ND) -> u8 { let ND { d, k } = x; let mut d = d; d.insert(1, k); k }\nfn mk_arr(a: u8) -> Array<u8> { array![a, 1] }\nfn mk_nd(k: u8) -> ND { ND { d: Default::default(), k } }\n";
 
+const OWN_PRELUDE2: &str = "fn chk(a: u8) { assert(a != 9, 'nine'); }\nfn nvr() -> core::never { core::panic_with_felt252('never') }\n";
+
 /// Every (value kind, first move, second use, position) combination: ill-formed by the language rules.
 fn use_after_move_programs() -> Vec<(String, String, bool)> {
     let mut out = vec![];
@@ -158,12 +160,19 @@ fn missing_drop_programs() -> Vec<(String, String, bool)> {
             ("unused-param", "a".to_string(), false),
             ("shadowed", format!("let x: {ty} = {ctor}; let x: u8 = a; x"), false),
             ("panic-path-leaks", format!("let x: {ty} = {ctor}; assert(a != 9, 'nine'); {}", eat("x")), false),
+            ("call-panic-path-leaks", format!("let x: {ty} = {ctor}; chk(a); {}", eat("x")), false),
+            ("call-before-value", format!("chk(a); let x: {ty} = {ctor}; {}", eat("x")), true),
+            ("two-calls-panic-path-leaks", format!("let x: {ty} = {ctor}; chk(a); chk(a); {}", eat("x")), false),
             ("in-tuple-dropped", format!("let x: {ty} = {ctor}; let t = (x, a); let (_y, z) = t; z"), false),
             ("match-arm-leaks", format!("let x: {ty} = {ctor}; match a % 2 {{ 0 => {}, _ => a }}", eat("x")), false),
         ];
         for (sn, body, legal) in scenarios {
-            let src = if sn == "unused-param" { format!("{OWN_PRELUDE}fn f(a: u8, x: {ty}) -> u8 {{ {body} }}\n") } else { format!("{OWN_PRELUDE}fn f(a: u8) -> u8 {{ {body} }}\n") };
-            out.push((format!("{}:{kn}:{sn}", if legal { "control-drop" } else { "missing-drop" }), src, legal));
+            // each scenario with an ordinary tail and with a tail that always diverges (the demand "after" the
+            // scenario is then only the panic path)
+            for (tn, tail_body) in [("", body.clone()), (":panic-tail", format!("let _r: u8 = {{ {body} }}; core::panic_with_felt252('tail')")), (":never-tail", format!("let _r: u8 = {{ {body} }}; nvr()"))] {
+                let src = if sn == "unused-param" { format!("{OWN_PRELUDE}{OWN_PRELUDE2}fn f(a: u8, x: {ty}) -> u8 {{ {tail_body} }}\n") } else { format!("{OWN_PRELUDE}{OWN_PRELUDE2}fn f(a: u8) -> u8 {{ {tail_body} }}\n") };
+                out.push((format!("{}:{kn}:{sn}{tn}", if legal { "control-drop" } else { "missing-drop" }), src, legal));
+            }
         }
     }
     // generic value without Drop bound
@@ -181,9 +190,9 @@ fn run_all(ctx: &mut Ctx) {
     };
     // (i) MiniCairo programs (well-typed by construction) under every configuration
     let cases = crate::c01::all_cases(tier);
-    let stride = tier.pick(3, 1);
+    let stride = tier.pick(5, 1);
     for (k, case) in cases.iter().enumerate() {
-        // quick: every third program of the (already exhaustive) C01 space under all corner configs; thorough: all
+        // quick: every fifth program of the (already exhaustive) C01 space under all corner configs; thorough: all
         if k % stride != 0 {
             continue;
         }
@@ -229,7 +238,7 @@ fn run_all(ctx: &mut Ctx) {
 pub static C08: CheckDef = CheckDef {
     id: "C08",
     level: "exploration",
-    rule: "(i) the C01 MiniCairo space (well-typed by construction; quick: every 3rd program, thorough: all) and every corpus snippet whose diagnostics are error-free, under every front-end configuration (quick: 5 corner configurations; thorough: the full 44-point product of Optimizations/inlining/const-folding/match-threshold): diagnostics error-free => get_sierra_program ok, ProgramRegistry (Sierra validation) ok, calc_metadata ok, sierra-to-casm ok, no panic anywhere. (ii) ownership injection, every combination: 4 non-copy value kinds (Array, struct with array, Destruct-only struct, struct without Drop) x 4 first moves (call, let, through a tuple, in both branches) x 3 second uses (call again, let again, snapshot) x 4 positions (straight, in if, in else, in match arm), plus moves inside while/loop/for bodies; missing drop: 2 non-droppable kinds x 12 scenarios (never consumed, one branch only, overwritten, leaked by early return, unused parameter, shadowed, leaked on panic path, dropped in tuple, match arm) plus an unbounded generic; each ill-formed program must get >=1 error diagnostic under the default configuration and with optimisations disabled; the legal control variants (single move, consumed on all paths, bounded generic) must compile - so rejection is caused by the injected violation. distinct_nontrivial = distinct programs.",
+    rule: "(i) the C01 MiniCairo space (well-typed by construction; quick: every 5th program, thorough: all) and every corpus snippet whose diagnostics are error-free, under every front-end configuration (quick: 5 corner configurations; thorough: the full 44-point product of Optimizations/inlining/const-folding/match-threshold): diagnostics error-free => get_sierra_program ok, ProgramRegistry (Sierra validation) ok, calc_metadata ok, sierra-to-casm ok, no panic anywhere. (ii) ownership injection, every combination: 4 non-copy value kinds (Array, struct with array, Destruct-only struct, struct without Drop) x 4 first moves (call, let, through a tuple, in both branches) x 3 second uses (call again, let again, snapshot) x 4 positions (straight, in if, in else, in match arm), plus moves inside while/loop/for bodies; missing drop: 2 non-droppable kinds x 15 scenarios (never consumed, one branch only, overwritten, leaked by early return, unused parameter, shadowed, leaked on the panic path of an inline assert / of one / of two panicable calls, dropped in tuple, match arm) x 3 tails (ordinary value, always panics, never-typed call) plus an unbounded generic; each ill-formed program must get >=1 error diagnostic under the default configuration and with optimisations disabled; the legal control variants (single move, consumed on all paths, bounded generic) must compile - so rejection is caused by the injected violation. distinct_nontrivial = distinct programs.",
     assumptions: &["linear metadata solvers (the legacy solvers' panics are C14 findings)", "any error diagnostic counts: the property does not fix the wording"],
     run: run_all,
     stack_mb: 32,
